@@ -42,7 +42,15 @@ const (
 	defaultBufSize = 4096
 )
 
-var errNegativeCount = errors.New("bufiox: negative count")
+var (
+	errNegativeCount = errors.New("bufiox: negative count")
+	errCountTooLarge = errors.New("bufiox: count too large")
+)
+
+// maxAcquire bounds what a stream-backed reader tries to buffer for one request. The buffer
+// sizes below are doubled until they fit the request: beyond 1<<62 the doubling wraps around
+// to 0 and never ends, beyond 1<<45 mcache has no size class and panics.
+const maxAcquire = 1 << 43
 
 // NewDefaultReader returns a new DefaultReader that reads from r.
 func NewDefaultReader(rd io.Reader) *DefaultReader {
@@ -79,6 +87,9 @@ func (r *DefaultReader) reset(rd io.Reader, buf []byte) {
 func (r *DefaultReader) acquireSlow(n int) int {
 	if r.err != nil {
 		return len(r.buf) - r.ri
+	}
+	if n > maxAcquire {
+		return -1 // can never be buffered, reported as errCountTooLarge (not sticky)
 	}
 
 	if cap(r.buf) == 0 {
@@ -143,7 +154,9 @@ func (r *DefaultReader) Next(n int) (buf []byte, err error) {
 	}
 	m := r.acquire(n)
 	if n > m {
-		err = r.err
+		if err = r.err; m < 0 {
+			err = errCountTooLarge
+		}
 		return
 	}
 	// nocopy read
@@ -159,7 +172,9 @@ func (r *DefaultReader) Peek(n int) (buf []byte, err error) {
 	}
 	m := r.acquire(n)
 	if n > m {
-		err = r.err
+		if err = r.err; m < 0 {
+			err = errCountTooLarge
+		}
 		return
 	}
 	// nocopy read
@@ -174,7 +189,9 @@ func (r *DefaultReader) Skip(n int) (err error) {
 	}
 	m := r.acquire(n)
 	if n > m {
-		err = r.err
+		if err = r.err; m < 0 {
+			err = errCountTooLarge
+		}
 		return
 	}
 	r.ri += n
@@ -186,7 +203,9 @@ func (r *DefaultReader) ReadLen() (n int) {
 }
 
 func (r *DefaultReader) ReadBinary(bs []byte) (m int, err error) {
-	m = r.acquire(len(bs))
+	if m = r.acquire(len(bs)); m < 0 {
+		return 0, errCountTooLarge
+	}
 	copy(bs, r.buf[r.ri:r.ri+m])
 	r.ri += m
 	if len(bs) > m {
